@@ -19,6 +19,9 @@
 // LIABILITY, WHETHER IN AN ACTION OF CONTRACT, TORT OR OTHERWISE, ARISING FROM,
 // OUT OF OR IN CONNECTION WITH THE SOFTWARE OR THE USE OR OTHER DEALINGS IN THE
 // SOFTWARE.
+#[cfg(feature = "verif-models")]
+use crate::mqtt::common::verif_model::BTreeSet;
+#[cfg(not(feature = "verif-models"))]
 use alloc::collections::BTreeSet;
 use core::fmt::Debug;
 
@@ -185,4 +188,10 @@ where
             crate::mqtt::common::tracing::debug!("{_iv:?}");
         }
     }
+}
+
+#[cfg(all(feature = "verif-hooks", kani))]
+#[allow(dead_code, unused)]
+pub(crate) mod verif_harness {
+    include!(concat!(env!("VERIF_HARNESS_DIR"), "/value_allocator_h.rs"));
 }
